@@ -25,7 +25,7 @@ from .exceptions import BadInputError
 
 import operator
 from functools import lru_cache
-from math import ceil, floor
+from math import ceil
 
 
 _operator_map = {op.__name__: op for op in [
@@ -330,11 +330,16 @@ class TimeRecurrence:
         if self._get_is_in_bounds(timepoint):
             if self._duration is not None and self._duration.is_exact():
                 # Since it's exact, we can do maths instead of iterating
-                iterations, seconds_since = divmod(
-                    (timepoint - self._start_point).get_seconds(),
-                    self._duration.get_seconds())
+                interval_seconds = self._duration.get_seconds()
+                # N.B. Work to the microsecond, like the dumper: the points
+                # may carry float noise from decimal time units.
+                seconds_since = round(
+                    (timepoint - self._start_point).get_seconds() %
+                    interval_seconds, 6)
+                if seconds_since >= interval_seconds:
+                    seconds_since = 0  # timepoint is itself in the series
                 next_timepoint = timepoint + (self._duration - Duration(
-                    seconds=floor(seconds_since)))
+                    seconds=seconds_since))
                 if self._get_is_in_bounds(next_timepoint):
                     return next_timepoint
                 return None
